@@ -17,6 +17,8 @@ VALS = [-1000.0, -500.0, -100.0, -51.0, -50.0, -49.0, -10.0, 0.0, 10.0, 49.0, 50
 def W(x: float | None) -> Any:
     from frequenz.quantities import Power
 
+    if x == "nan":
+        return Power.from_watts(float("nan"))  # (cases are JSON: a NaN bound is written as the string "nan")
     return None if x is None else Power.from_watts(x)
 
 
